@@ -4,7 +4,8 @@
   tolerance statement for segments of at most four control points, constant 1/24), Props/C17BezierQuartic.lean (at most five
   control points, constant 1/8), Props/C17BezierQuintic.lean (at most six control points, constant 7/40), Props/C17BezierSextic.lean (at most seven, constant 5/24), Props/C17BezierSeptic.lean (at most
   eight, constant 17/56), Props/C17BezierOctic.lean (at most nine, constant 3/8), Props/C17BezierNonic.lean
-  (at most ten, constant 31/72), Props/C17BezierDecic.lean (at most eleven, constant 19/40; `comb_step`) and Props/C17Catmull.lean (the
+  (at most ten, constant 31/72), Props/C17BezierDecic.lean (at most eleven, constant 19/40; `comb_step`),
+  Props/C17BezierDeg11.lean (at most twelve, constant 49/88) and Props/C17Catmull.lean (the
   Catmull-Rom chord-error bound over ℝ, `catmull_within_bound_real`). All in namespace Rosu.C17.
 -/
 import RosuModel.Props.C17ArcEnd
@@ -18,4 +19,5 @@ import RosuModel.Props.C17BezierSeptic
 import RosuModel.Props.C17BezierOctic
 import RosuModel.Props.C17BezierNonic
 import RosuModel.Props.C17BezierDecic
+import RosuModel.Props.C17BezierDeg11
 import RosuModel.Props.C17Catmull
